@@ -727,7 +727,7 @@ func main() {
 		Property:  "C17",
 		Technique: "bounded-exhaustive enumeration of group assignments x value assignments x object placements x entry points vs per-object group model",
 		Rule: "objects with 2..3 (thorough 4) fields/keys, each in {none, either=1, either=2, botheq=1, botheq=2}, kinds string/int32 (and, up to 3 members, [2]int32, float64, bool, uint8, [2]string and a two-string struct whose distinct values print alike), values {zero,x,y}: all assignments; every type also with `required,` in front of the first member's group rule (2..3 members); placements: single struct, two slice elements, slice of pointers, " +
-			"two map entries by pointer, two and three map entries by value, nested child + slice of kids + map of kids by value + array of kids under a parent using the same group ids, and embedded (anonymous) by value / by pointer in an outer struct using the same group ids; Map, []map (two objects), Url (both parameter orders); expected group clauses (one per violated group, listing all members, " +
+			"two map entries by pointer, two and three map entries by value, nested child + slice of kids + map of kids by value + array of kids under a parent using the same group ids, and embedded (anonymous) by value / by pointer in an outer struct using the same group ids; Map, []map (two objects), Url (both parameter orders); an either group, a botheq group and a plain rule in one object under 4 other clause terminators x struct / slice / map / URL x all 162 value assignments (clause by clause equal to the default-terminator result); the call after 1..2 calls abandoned by a panicking user function (3 x 3 entry points); expected group clauses (one per violated group, listing all members, " +
 			"single-member groups as rule-writing errors) compared as multisets with members as sets; non-trivial = >=2 groups or objects whose verdicts differ",
 		Assumptions: []string{"every group member is present in Map/Url inputs (possibly empty)", "group clause order and Map member order unspecified (Go maps)"},
 		Run:         run,
